@@ -370,6 +370,8 @@ class Interp:
                 return Const(getattr(_re, last))
         if fq == "collections.OrderedDict":
             return Fn("lib", name="builtins.dict")
+        if fq == "types.MappingProxyType":
+            return Fn("lib", name="identity")  # a read-only view of the same mapping
         if fq.startswith("numpy.") or fq.startswith("math.") or fq.startswith("datetime.") or fq.startswith("dateutil.") or fq.startswith("posixpath."):
             return Fn("lib", name=fq)
         if root in ("numpy", "math", "datetime", "operator", "copy", "itertools", "re", "dateutil", "posixpath", "json", "fsspec"):
@@ -960,6 +962,8 @@ class Interp:
         return None
 
     def contains(self, coll, item):
+        if isinstance(coll, Obj) and "__contains__" in coll.fields:
+            return self.truth(self.call(coll.fields["__contains__"], [item], {}, None))
         t = getattr(coll, "table", None)
         if t is not None:
             t["probed"] = True
